@@ -175,6 +175,14 @@ def main():
     ap.add_argument('--tier', default=os.environ.get('VERIF_TIER', 'quick'), choices=['quick', 'thorough'])
     ap.add_argument('--replay')
     a = ap.parse_args()
+    # global watchdog: a check that does not finish is a harness failure (exit 2), never a verdict
+    import signal
+
+    def _too_long(signum, frame):
+        print('harness error: time limit exceeded', file=sys.stderr)
+        os._exit(2)
+    signal.signal(signal.SIGALRM, _too_long)
+    signal.alarm(int(os.environ.get('VERIF_TIME_LIMIT', '1500' if a.tier == 'quick' else '14400')))
     try:
         if a.replay:
             import findings
